@@ -236,3 +236,107 @@ func (r *run) groupPart(_ []credKind) error {
 	}
 	return nil
 }
+
+// ---- http load-balancing groups: the real group.HTTPGroupController over the routers of a real HTTPReverseProxy ----
+
+func init() { extraParts = append(extraParts, (*run).httpGroupPart) }
+
+func (r *run) httpGroupPart(_ []credKind) error {
+	creds := []credKind{{"none", ""}, {"right-alice", basic("alice", "apw")}, {"wrong-pass", basic("alice", "WRONG")}, {"bob", basic("bob", "bpw")}}
+	var scen [][]int
+	for a := range gmembers {
+		for b := range gmembers {
+			if a != b {
+				scen = append(scen, []int{a, b})
+			}
+		}
+	}
+	type result struct {
+		cases []string
+		fails [][3]string
+		err   error
+	}
+	results := make([]result, len(scen))
+	parallel(len(scen), 8, func(si int) {
+		res := &results[si]
+		routers := vhost.NewRouters()
+		rp := vhost.NewHTTPReverseProxy(vhost.HTTPReverseProxyOptions{ResponseHeaderTimeoutS: 5}, routers)
+		ctl := group.NewHTTPGroupController(routers)
+		arr := newArrivals()
+		var msCoq, resCoq, descr []string
+		joined := 0
+		for _, mi := range scen[si] {
+			m := gmembers[mi]
+			err := ctl.Register(m.name, gGroup, m.key, vhost.RouteConfig{Domain: gDomain, Username: m.user, Password: m.pass,
+				CreateConnFn: func(string) (net.Conn, error) {
+					c1, c2 := net.Pipe()
+					go stubBackend(c2, m.id, arr)
+					return c1, nil
+				}})
+			code := 9
+			switch {
+			case err == nil:
+				code = 0
+				joined++
+			case errors.Is(err, group.ErrGroupParamsInvalid):
+				code = 1
+			case errors.Is(err, group.ErrGroupAuthFailed):
+				code = 2
+			case errors.Is(err, vhost.ErrRouterConfigConflict):
+				code = 3
+			}
+			msCoq = append(msCoq, m.coq(r.sym))
+			resCoq = append(resCoq, fmt.Sprint(code))
+			descr = append(descr, fmt.Sprintf("register %s(user=%q pass=%q key=%q) -> %d", m.name, m.user, m.pass, m.key, code))
+		}
+		history := strings.Join(descr, "; ")
+		ln, err := net.Listen("tcp", "127.0.7.227:0")
+		if err != nil {
+			res.err = err
+			return
+		}
+		srv := &http.Server{Handler: rp}
+		go func() { _ = srv.Serve(ln) }()
+		defer srv.Close()
+		for ci, ck := range creds {
+			for rep := 0; rep < 2*joined+1; rep++ {
+				id := fmt.Sprintf("hg%d-%d-%d", si, ci, rep)
+				rq := mkReq("FOrigin", "PH11", target{host: gDomain, path: "/"}, ck.raw, "", rep%3)
+				hr := rawDo(ln.Addr().String(), rq.wire(id), "GET", nil)
+				if hr.err != nil {
+					res.err = hr.err
+					return
+				}
+				member := -1
+				if got := arr.get(id); len(got) > 0 {
+					member = got[0]
+					mm := gmembers[member]
+					if mm.user != "" || mm.pass != "" {
+						u, p, _ := parseBasicRef(rq.auth)
+						if u != mm.user || p != mm.pass {
+							what := fmt.Sprintf("http group member %s is configured with %q:%q; a GET carrying Authorization user=%q password=%q was served by it", mm.name, mm.user, mm.pass, u, p)
+							cs := fmt.Sprintf("history: %s; then %s", history, rq.String())
+							res.fails = append(res.fails, [3]string{"backend-reached-without-credentials:http-group", what, cs})
+						}
+					}
+				}
+				res.cases = append(res.cases, fmt.Sprintf("CHGrp %s %s %s %d (%d) (* %s; then GET / with Authorization %q *)",
+					hx.List(msCoq), hx.List(resCoq), rq.coq(r.sym), hr.status, member, history, ck.raw))
+			}
+		}
+	})
+	for _, res := range results {
+		if res.err != nil {
+			r.errs++
+			r.fail("zz-driver-io:http-group", "the driver could not complete an http group scenario: "+res.err.Error(), "")
+			continue
+		}
+		for _, f := range res.fails {
+			r.fail(f[0], f[1], f[2])
+		}
+		for _, c := range res.cases {
+			r.addCase(c, true, "http-group:cases")
+		}
+	}
+	return nil
+}
